@@ -93,8 +93,9 @@ theorem W_tick (t : Nat) (st : St) (h : W t st) (hc : st.cancelled = false) : W 
       · left; simp [hc, he]; omega
   · simp [hc] at h
 
-theorem iter_W (t : Nat) (f : St → R × St) (hf : ∀ st, W t st → W t (f st).2) :
-    ∀ n st, W t st → W t (iter f n st).2 := by
+/-- any property of the state that `-vstep` preserves is preserved by a loop … -/
+theorem iter_inv (I : St → Prop) (f : St → R × St) (hf : ∀ st, I st → I (f st).2) :
+    ∀ n st, I st → I (iter f n st).2 := by
   intro n
   induction n with
   | zero => intro st h; simpa [iter] using h
@@ -108,13 +109,15 @@ theorem iter_W (t : Nat) (f : St → R × St) (hf : ∀ st, W t st → W t (f st
       | ok => simp only; exact ih st' (by simpa [hfs] using this)
       | int => simpa [hfs] using this
 
-theorem exec_W (t : Nat) (p : Prog) : ∀ st, W t st → W t (exec t p st).2 := by
+/-- … and by every program (the only state change is `tick`, executed while not cancelled) -/
+theorem exec_inv (t : Nat) (I : St → Prop) (hI : ∀ st, I st → st.cancelled = false → I (tick t st))
+    (p : Prog) : ∀ st, I st → I (exec t p st).2 := by
   induction p with
   | done => intro st h; unfold exec; split <;> simpa using h
   | step rest ih =>
     intro st h; unfold exec; split
     · simpa using h
-    · rename_i hc; exact ih _ (W_tick t st h (by simpa using hc))
+    · rename_i hc; exact ih _ (hI st h (by simpa using hc))
   | sleep rest ih =>
     intro st h; unfold exec; split
     · simpa using h
@@ -122,7 +125,7 @@ theorem exec_W (t : Nat) (p : Prog) : ∀ st, W t st → W t (exec t p st).2 := 
   | loop n body rest ihb ihr =>
     intro st h; unfold exec; split
     · simpa using h
-    · have hi := iter_W t (exec t body) ihb n st h
+    · have hi := iter_inv I (exec t body) ihb n st h
       cases hit : iter (exec t body) n st with
       | mk r st' =>
         cases r with
@@ -152,5 +155,11 @@ theorem exec_W (t : Nat) (p : Prog) : ∀ st, W t st → W t (exec t p st).2 := 
             cases r with
             | ok => simp only [hy]; exact ihr st2 (by simpa [hy] using hf)
             | int => simpa [hy] using hf
+
+theorem iter_W (t : Nat) (f : St → R × St) (hf : ∀ st, W t st → W t (f st).2) :
+    ∀ n st, W t st → W t (iter f n st).2 := iter_inv (W t) f hf
+
+theorem exec_W (t : Nat) (p : Prog) : ∀ st, W t st → W t (exec t p st).2 :=
+  exec_inv t (W t) (W_tick t) p
 
 end C19
